@@ -8,6 +8,10 @@ import (
 	"errors"
 	"fmt"
 	"io"
+	"os"
+	"os/exec"
+	"runtime/debug"
+	"time"
 
 	"github.com/asticode/go-astits"
 )
@@ -730,6 +734,50 @@ func runMerge(sc *streamScenario, vs []variantSpec, rec *recorder) {
 	}
 }
 
+// deepSkipChild (run as a child process of the C19 harness: a stack overflow cannot be recovered from): 600 000 packets in a row that the
+// PacketSkipper drops, then three that it keeps, with the stack limited to 48 MB - the demuxer needs no stack per skipped packet.
+// Exit status 0: the three packets came back and the end of the input was reached.
+func deepSkipChild() {
+	debug.SetMaxStack(48 << 20)
+	const nskip = 600000
+	i := 0
+	gen := readerFunc(func(p []byte) (int, error) {
+		if i >= nskip+3 || len(p) < 188 {
+			return 0, io.EOF
+		}
+		for j := range p[:188] {
+			p[j] = 0xff
+		}
+		pid := 0x1ffd
+		if i >= nskip {
+			pid = 0x1ff0
+		}
+		p[0], p[1], p[2], p[3] = 0x47, byte(pid>>8), byte(pid), 0x10|byte(i%16)
+		i++
+		return 188, nil
+	})
+	dmx := astits.NewDemuxer(context.Background(), gen, astits.DemuxerOptPacketSize(188),
+		astits.DemuxerOptPacketSkipper(func(p *astits.Packet) bool { return p.Header.PID == 0x1ffd }))
+	got := 0
+	for {
+		_, err := dmx.NextPacket()
+		if err == astits.ErrNoMorePackets {
+			break
+		}
+		if err != nil {
+			os.Exit(3)
+		}
+		got++
+	}
+	if got != 3 {
+		os.Exit(4)
+	}
+}
+
+type readerFunc func(p []byte) (int, error)
+
+func (f readerFunc) Read(p []byte) (int, error) { return f(p) }
+
 // growReader: a reader that reports the end of its input and can be given more afterwards (a file being written, a buffer being filled)
 type growReader struct {
 	b   []byte
@@ -1144,6 +1192,13 @@ func runSkip(sc *streamScenario, rec *recorder) {
 				same = got[i] == want[i]
 			}
 			rec.ev(M{"ev": "longskip", "npkts": nskip + 5, "ncb": ncb, "nret": len(got), "nfiltered": len(want), "same": same})
+		}
+		// 600 000 skipped packets in a row with a small stack, in a child process (deepSkipChild)
+		{
+			cctx, cancel := context.WithTimeout(context.Background(), 120*time.Second)
+			err := exec.CommandContext(cctx, os.Args[0], "deepskip").Run()
+			cancel()
+			rec.ev(M{"ev": "longskip", "npkts": 600003, "ncb": 600003, "nret": 3, "nfiltered": 3, "same": err == nil})
 		}
 	}
 }
